@@ -107,6 +107,27 @@ def _is_overload(node):
     return any(ast.unparse(d).endswith('overload') for d in node.decorator_list)
 
 
+class _Aliased(dict):
+    """A table whose old names keep working after a pure rename (see Model._rename_aliases)."""
+    def __init__(self, *a):
+        super().__init__(*a)
+        self.alias = {}
+
+    def __missing__(self, k):
+        if k in self.alias:
+            return dict.__getitem__(self, self.alias[k])
+        raise KeyError(k)
+
+    def get(self, k, d=None):
+        try:
+            return self[k]
+        except KeyError:
+            return d
+
+    def __contains__(self, k):
+        return dict.__contains__(self, k) or k in self.alias
+
+
 class Model:
     def __init__(self, repo=None):
         self.repo = repo or repo_root()
@@ -129,6 +150,10 @@ class Model:
         from . import inline
         _REAL_LINES.clear()
         try:
+            self.undone_renames = inline.undo_renames(self.mods)
+        except Exception:
+            self.undone_renames = {}
+        try:
             rewritten, self.integrated_helpers = inline.integrate(self.mods, self.src)
         except Exception as e:      # the integration is an aid, never a reason to fail: analyse the tree as written
             rewritten, self.integrated_helpers = {}, []
@@ -149,11 +174,48 @@ class Model:
             self._load_module(mod, tree)
         for c in self.classes.values():
             c.bases = [b.attr if isinstance(b, ast.Attribute) else getattr(b, 'id', ast.unparse(b)) for b in c.node.bases]
+        self._rename_aliases()
         self.mro = {c: self._c3(c) for c in self.classes}
         self._implicit_hash()
         self._switch_tables()
         self._registry()
         self._roles()
+
+    def _rename_aliases(self):
+        """A private function of the reviewed baseline that is gone, while a function that did not exist then has exactly its
+        body (same module, same class): a rename.  The old key / name keeps working as an alias, so the rules' anchors (which
+        name functions of the reviewed tree) follow the rename instead of reporting a vanished anchor."""
+        from . import inline
+        from .reasons import body_digest
+        self.renamed = {}
+        baseline = inline.baseline_functions()
+        funcs = _Aliased(self.funcs)
+        self.funcs = funcs
+        for ci in self.classes.values():
+            ci.methods = _Aliased(ci.methods)
+        for mod in list(self.modfuncs):
+            self.modfuncs[mod] = _Aliased(self.modfuncs[mod])
+        missing = {k: d for k, d in baseline.items() if k not in self.funcs and d and '@' not in k}
+        if not missing:
+            return
+        by_digest = {}
+        for f in self.funcs.values():
+            if f.key not in baseline:
+                by_digest.setdefault(body_digest(f), []).append(f)
+        for old, d in sorted(missing.items()):
+            scope = old.rsplit('.', 1)[0] if '.' in old.split(':')[1] else old.split(':')[0] + ':'
+            cands = [f for f in by_digest.get(d, []) if (f.key.rsplit('.', 1)[0] if '.' in f.key.split(':')[1] else f.key.split(':')[0] + ':') == scope]
+            if len(cands) != 1:
+                continue
+            f = cands[0]
+            self.renamed[old] = f.key
+            funcs.alias[old] = f.key
+            oldname = old.split(':')[1].split('.')[-1]
+            if f.parent is None:
+                if f.cls and f.cls in self.classes:
+                    self.classes[f.cls].methods.alias[oldname] = f.name
+                elif not f.cls:
+                    self.modfuncs[f.mod].alias[oldname] = f.name
 
     # ------------------------------------------------------------------ loading
     def _load_module(self, mod, tree):
